@@ -29,6 +29,8 @@ ZStep(st, e, t) ==
              \* the drive is (or got by itself) in that state and nothing was commanded: observation only
              ELSE IF st.drv = st.target /\ st.ncw = 0 THEN Good(st)
                   ELSE Bad(st, "a state that cannot be commanded was accepted")
+      [] e.e = "runaway" ->
+           Bad(st, "the state assignment did not finish in finitely many steps")
       [] e.e = "raise" ->
            IF st.target \in Commandable
              THEN IF e.cls = "RuntimeError" /\ HasAuto(st.drv) THEN Good(st)   \* drive too slow: legitimate time-out
